@@ -210,7 +210,37 @@ async def parent_left_before_child():
     return ok, f"{res}"
 
 
-SCENARIOS = {f.__name__: f for f in (leaked_inner_context, parent_left_before_child,failed_generation_with_waiters, inject_across_short_lived_contexts,
+async def caller_names_injected_parameter():
+    """C19: the decorated call is the explicit call with the looked-up resources added as keyword arguments: a
+    caller who passes an injected parameter by keyword gets the TypeError the explicit call gives, not a
+    silently replaced argument"""
+    ran = []
+
+    @inject
+    def f(x, *, dep: A = resource()):
+        ran.append((x, dep))
+        return dep
+
+    @inject
+    async def g(x, *, dep: A = resource()):
+        ran.append((x, dep))
+        return dep
+    out = []
+    async with Context() as ctx:
+        ctx.add_resource(A(1))
+        for name, call in (("sync", lambda: f(1, dep="mine")), ("async", lambda: g(1, dep="mine"))):
+            try:
+                r = call()
+                if hasattr(r, "__await__"):
+                    r = await r
+                out.append((name, "returned", getattr(r, "tag", r)))
+            except TypeError:
+                out.append((name, "TypeError", None))
+    ok = all(o[1] == "TypeError" for o in out) and not ran
+    return ok, f"{out}; body ran with {[(x, getattr(d, 'tag', d)) for x, d in ran]}"
+
+
+SCENARIOS = {f.__name__: f for f in (caller_names_injected_parameter, leaked_inner_context, parent_left_before_child,failed_generation_with_waiters, inject_across_short_lived_contexts,
                                      inherited_context_outlives_block, overlapping_injected_calls)}
 
 
